@@ -2,5 +2,6 @@ package c05
 
 // Registry lists the harness entry points of this package for native replay.
 var Registry = map[string]func([]int64){
-	"HarnessFaultyAdd": func(a []int64) { HarnessFaultyAdd(int(a[0])) },
+	"HarnessFaultyAdd":   func(a []int64) { HarnessFaultyAdd(int(a[0])) },
+	"HarnessFaultyReorg": func(a []int64) { HarnessFaultyReorg(int(a[0])) },
 }
